@@ -86,6 +86,15 @@ func (rp *replayPlan) build(name, path string, t types.Type, term string, depth 
 		}
 	case *types.Interface:
 		n.kind = "iface"
+	case *types.Array:
+		n.kind = "skip"
+		if _, ok := x.Elem().Underlying().(*types.Basic); ok && x.Len() <= 16 {
+			n.kind = "array"
+			for i := int64(0); i < x.Len(); i++ {
+				k := rp.build(fmt.Sprintf("%s[%d]", name, i), fmt.Sprintf("%s[%d]", path, i), x.Elem(), fmt.Sprintf("(select %s %s)", term, c.intLit64(i, 64)), depth+1, false)
+				n.kids = append(n.kids, k)
+			}
+		}
 	case *types.Slice:
 		n.kind = "slice"
 		if _, ok := x.Elem().Underlying().(*types.Basic); !ok {
@@ -434,7 +443,10 @@ func (rp *replayPlan) goTest(pkg *types.Package, fname string, sig *types.Signat
 					return err
 				}
 			}
-		case "struct", "heapstruct":
+		case "struct", "heapstruct", "array":
+			if n.field != nil && !n.field.Exported() && n.field.Pkg() != pkg {
+				return nil
+			}
 			for _, k := range n.kids {
 				if err := setup(k); err != nil {
 					return err
@@ -520,8 +532,18 @@ func (rp *replayPlan) goTest(pkg *types.Package, fname string, sig *types.Signat
 		case *types.Struct:
 			for j := 0; j < u.NumFields(); j++ {
 				f := u.Field(j)
-				if _, isB := f.Type().Underlying().(*types.Basic); isB && (f.Exported() || f.Pkg() == pkg) {
+				if !(f.Exported() || f.Pkg() == pkg) {
+					continue
+				}
+				if _, isB := f.Type().Underlying().(*types.Basic); isB {
 					fmt.Fprintf(&obs, "\tobs[%q] = fmt.Sprint(%s.%s)\n", fmt.Sprintf("res%d.%s", i, f.Name()), rn, f.Name())
+				}
+				if at, isA := f.Type().Underlying().(*types.Array); isA && at.Len() <= 16 {
+					if _, isB := at.Elem().Underlying().(*types.Basic); isB {
+						for k := int64(0); k < at.Len(); k++ {
+							fmt.Fprintf(&obs, "\tobs[%q] = fmt.Sprint(%s.%s[%d])\n", fmt.Sprintf("res%d.%s[%d]", i, f.Name(), k), rn, f.Name(), k)
+						}
+					}
 				}
 			}
 		}
@@ -694,6 +716,15 @@ func (rp *replayPlan) evalClause(P *Program, clause Expr, obs map[string]string)
 				if ov, ok := obs[fmt.Sprintf("res%d.%s", i, f.Name())]; ok {
 					if lit, ok := goValToSMT(c, f.Type(), ov); ok {
 						facts = append(facts, eq(fmt.Sprintf("(%s!%s %s)", sname, sanitize(f.Name()), term), lit))
+					}
+				}
+				if at, isA := f.Type().Underlying().(*types.Array); isA {
+					for k := int64(0); k < at.Len() && k < 16; k++ {
+						if ov, ok := obs[fmt.Sprintf("res%d.%s[%d]", i, f.Name(), k)]; ok {
+							if lit, ok := goValToSMT(c, at.Elem(), ov); ok {
+								facts = append(facts, eq(fmt.Sprintf("(select (%s!%s %s) %s)", sname, sanitize(f.Name()), term, c.intLit64(k, 64)), lit))
+							}
+						}
 					}
 				}
 			}
